@@ -326,7 +326,7 @@ theorem stop_does_not_reach_cleanup (s : St) (i : Nat) (o : Outcome) (hc : s.ctl
   simp only [] at hc hns hin hst
   subst hc hns hin hst
   simp only [deliver, onStop, Ctl.callbackRegistered, deliverStop, emit]
-  simp only [Bool.false_eq_true, if_false, Bool.not_true, if_true, Bool.or_self, Bool.not_false, Bool.or_false]
+  simp only [Bool.false_eq_true, if_false, Bool.not_true, if_true, Bool.or_self]
   rw [settle_of_halted]
   · simp [stopOpDone]
   · rfl
